@@ -140,7 +140,7 @@ PROPS = {
         assumptions=PROC_ASSUME['C13'],
     ),
     'C17': dict(
-        lean=['Props.C17', 'Props.C17Spec', 'Props.PipeC17', 'Props.Excess', 'Props.FactsRing', 'Props.FactsLimits', 'Props.FactsTestRec', 'Props.Pipeline'],
+        lean=['Props.C17', 'Props.C17Spec', 'Props.PipeC17', 'Props.Excess', 'Props.FactsExcess', 'Props.FactsRing', 'Props.FactsLimits', 'Props.FactsTestRec', 'Props.Pipeline'],
         streams=['processor', 'e2e', 'names', 'daemon'],
         project={'processor': r'^< (c\.|t\.|ret|panic)', 'daemon': r'^$'}, rule=PROC_RULE, trusted=PROC_TRUSTED,
         assumptions=PROC_ASSUME['C17'],
